@@ -28,7 +28,7 @@ def main():
         if n != 1:
           print('MUTANT-ERROR: %d occurrences of %r in %s' % (n, old, f)); return 3
         open(p, 'w').write(s.replace(old, new))
-    env = dict(os.environ, VERIF_REPO=d)
+    env = dict(os.environ, VERIF_REPO=d, VERIF_MAX_WALL_S=os.environ.get('VERIF_MAX_WALL_S', '600'))
     r = subprocess.run(['/verif/check', pid, '--tier', tier, '--no-evidence'], env=env, stdout=subprocess.PIPE, stderr=subprocess.STDOUT, text=True)
     lines = [l for l in r.stdout.splitlines() if 'conda' not in l]
     print('\n'.join(lines[-12:]))
